@@ -760,11 +760,11 @@ func cmdReplay(args []string) {
 	if err := json.Unmarshal(data, rf); err != nil {
 		fatal("%v", err)
 	}
-	if strings.Contains(rf.Obligation, "#dispatch:") {
+	if strings.Contains(rf.Obligation, "#dispatch:") || strings.Contains(rf.Obligation, "#receiver:") || strings.HasSuffix(rf.Obligation, "#shape") {
 		// a structural obligation: decided again by go/types on the current tree
 		e := setup()
 		for _, dc := range e.dispatch {
-			if fmt.Sprintf("%s.%s#dispatch:%s", pkgShort(dc.Pkg), dc.Type, dc.Method) == rf.Obligation {
+			if dc.obName() == rf.Obligation {
 				ok, why := dc.holds(e.L)
 				if ok {
 					fmt.Printf("obligation %s holds on the current tree\n", rf.Obligation)
